@@ -34,3 +34,29 @@ Print Assumptions C06_hooks_override_spec.
 
 Example C06_nonvacuous : handle_git wit_commit = Ran (Some null_hooks) [c_commit] (Exited 0) true.
 Proof. exact wit_commit_runs. Qed.
+
+(* ---- where git-ai's own git invocations may write (Model/Confine.v) ----
+   The inventory of internal git call sites is regenerated from the source on every run
+   (Gen/GenInternalGit.v); the domain is finite, the classification is decided by computation and lifted
+   to every call site.  A new call site that writes anything but objects and refs/notes/ai*, and is not one
+   of the listed dynamic-target sites (which the argv log monitors at run time), breaks these theorems. *)
+From Verif Require Import Gen.GenInternalGit Model.ConfineTables Model.Confine Proofs.ConfineProofs.
+
+Theorem C06_internal_sites_classified : forall e,
+  In e gen_inventory ->
+  classify_site e = ReadOnly \/ classify_site e = ObjectStore \/ classify_site e = OwnRefsLiteral
+  \/ classify_site e = CiOnly
+  \/ (classify_site e = DynamicTarget /\ in_pairs (inv_file e) (inv_fn e) dynamic_sites = true).
+Proof. exact writers_are_listed. Qed.
+Print Assumptions C06_internal_sites_classified.
+
+Theorem C06_dynamic_sites_exist : dynamic_sites_exist = true.
+Proof. exact dynamic_sites_all_exist. Qed.
+Print Assumptions C06_dynamic_sites_exist.
+
+Example C06_site_classes_inhabited :
+  (0 <? count_class (fun c => match c with ReadOnly => true | _ => false end)) = true /\
+  (0 <? count_class (fun c => match c with ObjectStore => true | _ => false end)) = true /\
+  (0 <? count_class (fun c => match c with OwnRefsLiteral => true | _ => false end)) = true /\
+  (0 <? count_class (fun c => match c with DynamicTarget => true | _ => false end)) = true.
+Proof. exact classes_inhabited. Qed.
